@@ -2,6 +2,7 @@
 package c17
 
 import (
+	"strings"
 	"errors"
 	"fmt"
 	"testing"
@@ -140,6 +141,32 @@ func scenario(w *sim.World) {
 		cfgs = append(cfgs, distsys.EnsureArchetypeRefParam("m", im))
 	}
 	var nestedInner []*cell
+	// serverMode: the first nested archetype speaks the resource protocol (read/write/pre-commit/
+	// commit/abort requests and acks), the outer program reads the nested resource in every
+	// section, and the server may end on its own (reach Done) between two outer sections
+	serverMode := nested && w.Choose(sim.KCfg, 2) == 1
+	serveSections := 0 // 0 = serves until stopped; n = ends on its own after n outer sections (commit or abort acks)
+	serverEnded := false
+	if serverMode && w.Choose(sim.KCfg, 2) == 1 {
+		serveSections = 1 + w.Choose(sim.KCfg, 3)
+	}
+	// The nested resource crashes the process on purpose (panic) when it has to abort or commit
+	// a section after one of its nested archetypes has ended ("we assume that all nested
+	// contexts must be running for resource API requests to be serviced"): that is outside
+	// what the property promises. It can only happen here when the server ended on its own
+	// while a request of the outer section was timing out.
+	w.PanicOK = func(r any) bool {
+		msg := fmt.Sprint(r)
+		if serverEnded && strings.Contains(msg, resources.ErrNestedArchetypeStopped.Error()) {
+			return true
+		}
+		// Likewise deliberate ("we should crash immediately"): the resource's reaction to what it
+		// takes for a protocol violation of the nested system. With a request that timed out
+		// (server stalled beyond the 100 ms request time-out) its late ack can arrive after the
+		// abort request has gone out, which Abort does not expect. Not a lifecycle matter;
+		// noted in DESIGN.md as an observation.
+		return serverMode && strings.Contains(msg, resources.ErrNestedArchetypeProtocol.Error())
+	}
 	if nested {
 		// a nested-archetype resource whose inner context owns counting cells too; the
 		// inner archetype just waits on its input channel (never used by the outer
@@ -162,9 +189,13 @@ func scenario(w *sim.World) {
 				nestedInner = append(nestedInner, ic)
 				in := resources.NewInputChan(receiveCh, resources.WithInputChanReadTimeout(50*time.Millisecond))
 				att := 0
+				served := 0
+				if serverMode {
+					endsAfter[k] = 0 // in server mode only the server itself may end on its own
+				}
 				innerArch := distsys.MPCalArchetype{
 					Name: "I", Label: "I.l0",
-					RequiredRefParams: []string{"I.in", "I.c"},
+					RequiredRefParams: []string{"I.in", "I.c", "I.out"},
 					JumpTable: distsys.MakeMPCalJumpTable(
 						distsys.MPCalCriticalSection{Name: "I.l0", Body: func(iface distsys.ArchetypeInterface) error {
 							in, err := iface.RequireArchetypeResourceRef("I.in")
@@ -179,6 +210,32 @@ func scenario(w *sim.World) {
 								return err
 							}
 							att++
+							if serverMode && k == 0 {
+								out, err := iface.RequireArchetypeResourceRef("I.out")
+								if err != nil {
+									return err
+								}
+								req, err := iface.Read(in, nil)
+								if err != nil {
+									return err
+								}
+								S := tla.MakeString
+								tpe := req.ApplyFunction(S("tpe")).AsString()
+								ack := map[string]string{"read_req": "read_ack", "write_req": "write_ack", "precommit_req": "precommit_ack", "commit_req": "commit_ack", "abort_req": "abort_ack"}[tpe]
+								resp := tla.MakeRecord([]tla.RecordField{{Key: S("tpe"), Value: S(ack)}, {Key: S("value"), Value: tla.MakeNumber(7)}})
+								if err := iface.Write(out, nil, resp); err != nil {
+									return err
+								}
+								if tpe == "commit_req" || tpe == "abort_req" {
+									served++
+								}
+								if serveSections > 0 && served >= serveSections {
+									serverEnded = true
+									w.Probe("nested_server_ended_on_its_own")
+									return iface.Goto("I.Done")
+								}
+								return iface.Goto("I.l0")
+							}
 							if endsAfter[k] > 0 && att >= endsAfter[k] {
 								w.Probe("nested_context_ended_on_its_own")
 								return iface.Goto("I.Done")
@@ -198,6 +255,7 @@ func scenario(w *sim.World) {
 					PreAmble:  func(distsys.ArchetypeInterface) {},
 				}
 				ctxs = append(ctxs, distsys.NewMPCalContext(tla.MakeString(fmt.Sprintf("inner%d", k)), innerArch,
+					distsys.EnsureArchetypeRefParam("out", resources.NewOutputChan(sendCh)),
 					distsys.EnsureArchetypeRefParam("in", in),
 					distsys.EnsureArchetypeRefParam("c", ic)))
 			}
@@ -210,6 +268,7 @@ func scenario(w *sim.World) {
 	}
 
 	// the program
+	nestedStoppedSeen := false // a read of the nested resource reported that a nested archetype has stopped
 	failureProduced := false   // a section body returned the program's assertion/resource error
 	reachedErrorLabel := false // a section jumping to the Error label was executed (it may still be pre-empted before Error runs)
 	bodyRan := 0
@@ -268,6 +327,19 @@ func scenario(w *sim.World) {
 				if err := iface.Write(h, []tla.Value{idx}, tla.MakeNumber(v.AsNumber()+1)); err != nil {
 					return err
 				}
+			}
+			if serverMode {
+				h, err := iface.RequireArchetypeResourceRef("A.n")
+				if err != nil {
+					return err
+				}
+				if _, err := iface.Read(h, nil); err != nil {
+					if errors.Is(err, resources.ErrNestedArchetypeStopped) {
+						nestedStoppedSeen = true
+					}
+					return err
+				}
+				w.Probe("nested_resource_read")
 			}
 			if ending == endAssert && l == failAt {
 				failureProduced = true
@@ -459,6 +531,11 @@ func scenario(w *sim.World) {
 		if ending != endErrorLabel {
 			w.Fail("wrong_result", "Run reported ErrProcedureFallthrough but ending is %s", endNames[ending])
 		}
+	case errors.Is(runErr, resources.ErrNestedArchetypeStopped):
+		// a resource error: legal only if the nested server did end on its own before a section read the resource
+		if !serverEnded {
+			w.Fail("wrong_result", "Run reported that a nested archetype has stopped, but none had ended on its own")
+		}
 	case errors.Is(runErr, errResource):
 		if ending != endResErr {
 			w.Fail("wrong_result", "Run reported a resource error but ending is %s", endNames[ending])
@@ -467,6 +544,9 @@ func scenario(w *sim.World) {
 		// normal termination or stopped: legal for done/loop always; for the failing
 		// endings only if a Stop pre-empted the run before the failing section executed.
 		// Once a section has produced the error, Run must report it whatever Stop does.
+		if nestedStoppedSeen && !stoppedEarly {
+			w.Fail("failure_masked", "a read of the nested resource failed (nested archetype stopped) but Run returned nil and nobody called Stop")
+		}
 		if failureProduced {
 			w.Fail("failure_masked", "a critical section failed (%s) but Run returned nil (Stop called: %v)", endNames[ending], stoppedEarly)
 		}
@@ -476,7 +556,7 @@ func scenario(w *sim.World) {
 	default:
 		w.Fail("wrong_result", "Run returned an unexpected error: %v", runErr)
 	}
-	if ending == endDone && !stoppedEarly && bodyRan != nLabels {
+	if ending == endDone && !stoppedEarly && bodyRan != nLabels && runErr == nil && !serverMode { // requests to a nested server may time out: sections are retried
 		w.Fail("wrong_sections", "program of %d labels ran %d section bodies without any Stop", nLabels, bodyRan)
 	}
 	if len(mapCells) > 0 {
